@@ -1,15 +1,24 @@
 import Qryn.Proofs.TraceQLLimit
 import Qryn.Proofs.TraceQLWf
+import Qryn.Proofs.TraceQLPortions
+import Qryn.Proofs.TraceQLTags
+import Qryn.Proofs.TraceQLGrammar
+import Qryn.Proofs.TraceQLAll
 import Qryn.Gen.TraceQLOps
 /-! # C11 — the SQL generated for TraceQL selects exactly the traces the query describes
 
-Model: `TraceQL.plan` (tied byte-for-byte to `clickhouse_transpiler.Plan → Process → String` by the `text`
-correspondence stream), `Sql.evalSelG` (semantics of the structured SQL subset — a documented model of
-ClickHouse), `TraceQL.traceMatches` (the direct reading of the script over the attribute index, no SQL).
-The theorems are about `rootSel` — the select that becomes `index_grouped` and decides which traces are
-returned — and its LIMIT (`indexGrouped`). Fragment (`SelOk`): selectors with conditions, ≤ 64 distinct
-conditions per selector; no portion filter. Not covered: `{}`, the join with the span table
-(`TracesDataPlanner`), the order among equally recent traces, `PlanTagsV2` / `PlanValuesV2`. -/
+Models: `TraceQL.plan` / `planTags` / `planValues` (tied byte-for-byte to `clickhouse_transpiler.Plan… → Process → String`
+by the `text` / `tags` streams), `TraceQL.parseExp` (the participle grammar, tied by the `parse` stream),
+`TraceQL.portionLoop` (`ComplexRequestProcessor`, tied by the `portions` stream), `Sql.evalSelG` / `Sql.evalStmtJ`
+(semantics of the structured SQL subset incl. ORDER BY / LIMIT / ANY LEFT JOIN — a documented model of ClickHouse),
+`TraceQL.Sem` / `TraceQL.SemWhole` (the direct reading, no SQL).
+
+Whole-plan theorems: `plan_traceql_correct` (every script whose selectors have conditions, every window, limit, database
+and portion-filter context: the rows of the WHOLE statement = `assemble` of a choice of the `limit` most recent described
+traces with their selected spans), `portions_partition` (the portion loop, any `N ≥ 1`, any hash), `plan_tags_correct`,
+`plan_values_correct`, `precedence_*` (the parser reads the chain as written; the planner reads it as TraceQL does).
+`{}` alone (`AttrlessConditionPlanner`: the span table is scanned, no index) is checked by the `whole` stream; its
+statement `plan_all_traces_full` is compiled, not proved. -/
 namespace Qryn.C11
 open Qryn Qryn.Sql Qryn.TraceQL
 
@@ -56,16 +65,40 @@ theorem bitset_tree_correct (o : Oracles) (ao : AggOracles) (env : Env) (g : Lis
   rw [testBit_groupOr _ _ hi, List.any_map]
   rfl
 
-/-- the statement without the bound on the indices: **false** — the planner's bit masks are `int64(1) << i`
-    and ClickHouse's `bitShiftLeft(toUInt64(c), i)` is 0 from bit 64 on, so condition number 65 and later of
-    one selector can never hold (finding `over-64-conditions`) -/
-def bitset_tree_correct_full : Prop :=
+/-- **bitset_tree_correct, at full strength**: for EVERY selector `e` — either the planner refuses it (more than 64
+    distinct conditions: `analyze` returns an error since fix 4c45e66) or every index of its tree is below 64 and HAVING
+    over the bit set holds of a group iff the boolean tree holds of "some row of the group satisfies condition i". -/
+theorem bitset_tree_correct_or_error (o : Oracles) (ao : AggOracles) (env : Env) (c : Ctx) (e : AttrExp) (aggAttr : String)
+    (hinj : KeyInj (termsOf e)) :
+    (∃ msg, attrCondition c (analyzeCond [] e).1 (analyzeCond [] e).2 aggAttr = .error msg) ∨
+    ((analyzeCond [] e).2.bounded 64 ∧
+      ∀ (g : List Row) (es : List Expr) (al : Bool),
+        evalHavG o ao env g (groupOr (g.map (fun r => es.map (evalB o env r)))) (condSql es al (analyzeCond [] e).2).1 =
+          (analyzeCond [] e).2.eval (fun i => g.any (fun r => (es.map (evalB o env r)).getD i false))) := by
+  cases h : attrCondition c (analyzeCond [] e).1 (analyzeCond [] e).2 aggAttr with
+  | error msg => exact Or.inl ⟨msg, rfl⟩
+  | ok S =>
+    right
+    obtain ⟨h64, _⟩ := attrCondition_core h
+    obtain ⟨extra, h1, _, h3, _⟩ := analyzeCond_spec (fun _ => true) e [] (by simpa using hinj)
+    simp only [List.nil_append] at h1 h3
+    have hb : (analyzeCond [] e).2.bounded 64 := Cond.bounded_mono (by rw [← h1]; exact h64) _ h3
+    exact ⟨hb, fun g es al => bitset_tree_correct o ao env g es al _ hb⟩
+
+/-- more than 64 distinct conditions are refused, whatever the context -/
+theorem over_64_conditions_refused (c : Ctx) (terms : List Term) (cond : Cond) (aggAttr : String) (h : 64 < terms.length) :
+    ∃ msg, attrCondition c terms cond aggAttr = .error msg := by
+  unfold attrCondition; rw [if_pos h]; exact ⟨_, rfl⟩
+
+/-- why the guard is needed: without a bound on the indices the encoding is wrong — `int64(1) << i` and ClickHouse's
+    `bitShiftLeft(toUInt64(c), i)` are 0 from bit 64 on, so with 65 conditions that all hold of the only row of a group the
+    leaf for the 65th is false -/
+def bitset_tree_unbounded : Prop :=
   ∀ (o : Oracles) (ao : AggOracles) (env : Env) (g : List Row) (es : List Expr) (al : Bool) (c : Cond),
     evalHavG o ao env g (groupOr (g.map (fun r => es.map (evalB o env r)))) (condSql es al c).1 =
       c.eval (fun i => g.any (fun r => (es.map (evalB o env r)).getD i false))
 
-/-- 65 conditions that all hold of the only row of a group: the leaf for the 65th is false -/
-theorem bitset_tree_correct_counterexample : ¬ bitset_tree_correct_full := by
+theorem bitset_tree_unbounded_counterexample : ¬ bitset_tree_unbounded := by
   intro h
   have := h { reMatch := fun _ _ => false, jsonLabels := fun _ => [], isNum := fun _ => false, numCmp := fun _ _ _ => false, lower := id } ⟨fun _ _ _ _ => false⟩ [] [[]]
     (List.replicate 65 (.int 1)) false (.leaf 64)
@@ -84,6 +117,31 @@ theorem analyze_correct (f : Term → Bool) (e : AttrExp) (hinj : KeyInj (termsO
   have := h4 []
   simp only [List.nil_append, List.append_nil] at h1 this
   rw [h1]; exact this
+
+/-- **precedence_parser**: the recursive descent of the participle grammar reads back exactly the chain of conditions and
+    parenthesised expressions that was written — nested to the right whatever the operators are (there is no precedence in
+    the grammar) — for every expression and all sufficient fuel. -/
+theorem precedence_parser (e : AttrExp) (fuel : Nat) (rest : List Tok) (hf : e.size < fuel) (hr : endsExp rest) :
+    parseExp fuel (toks e ++ rest) = some (e, rest) := parse_toks e fuel rest hf hr
+
+/-- … and so does the chain of selectors -/
+theorem precedence_parser_script (script : Script) (fuel : Nat) (hw : ScriptWf script) (hf : script.length < fuel) :
+    parseScriptToks fuel (stoks script) = some (script, []) := parse_stoks script fuel hw hf
+
+/-- **precedence_planner**: for EVERY expression the parser can return, the planner's boolean tree (after fix 99a4847) means
+    the chain as TraceQL reads it — `&&` binds tighter than `||` (`expHolds`: some group of `&&`-joined neighbours has all its
+    members true), parenthesised sub-expressions likewise. -/
+theorem precedence_planner (f : Term → Bool) (e : AttrExp) (hinj : KeyInj (termsOf e)) :
+    (analyzeCond [] e).2.eval (fun i => (((analyzeCond [] e).1[i]?).map f).getD false) = holdsG (expGroups f e) :=
+  analyze_correct f e hinj
+
+/-- the tree as the parser nests it is NOT the TraceQL reading: `{.a="x" && .b="y" || .c="z"}` is parsed as
+    `a && (b || c)`; on a span with only `.c="z"` TraceQL says yes, the nested reading (the planner before the fix) no -/
+theorem precedence_nested_reading_differs :
+    let e := AttrExp.leafOp tA .and (.leafOp tB .or (.leaf tC))
+    let f : Term → Bool := fun t => t == tC
+    parseExp 10 [.term tA, .and, .term tB, .or, .term tC] = some (e, []) ∧ expHolds f e = true ∧ nestedHolds f e = false :=
+  nested_reading_differs
 
 /-- **span_having_correct.** In the index scan of a selector, the group of a span (its index rows inside
     the window that pass WHERE) passes HAVING iff the selector's boolean combination holds of the span. -/
@@ -110,10 +168,10 @@ theorem aggregate_filter (o : Oracles) (ao : AggOracles) (env : Env) (pfx : Stri
     exactly one row per trace the selector matches: some span of the trace satisfies the conditions and the
     matched spans pass the aggregate comparison. -/
 theorem selector_correct (o : Oracles) (ao : AggOracles) (hp : PermInv ao) (c : Ctx) (d : TraceDb)
-    (hr : c.rndMax = 0) (hcons : DurConsistent d) (pfx : String) (s : Selector) (op : ScriptOp) (rest : Script) (X : Sel)
+    (hcons : DurConsistent (d.seen o c)) (pfx : String) (s : Selector) (op : ScriptOp) (rest : Script) (X : Sel)
     (h : simpleSel c pfx ((s, op) :: rest) = .ok X) (hs : SelOk s) (env : Env) (tr : Bytes) :
-    (∃ r ∈ evalSelG o ao (d.toDb c) true env X, r.get "trace_id" = .str tr) ↔ selMatches o ao c d s tr = true := by
-  have := (simple_traceRows o ao hp c d hr hcons pfx s op rest X h hs [] env).mem tr
+    (∃ r ∈ evalSelG o ao (d.toDb c) true env X, r.get "trace_id" = .str tr) ↔ selMatches o ao c (d.seen o c) s tr = true := by
+  have := (simple_traceRows o ao hp c d hcons pfx s op rest X h hs [] env).mem tr
   have hX : X.addCols [] = X := by obtain ⟨ws, d', c', f, j, p, w, g, h', ob, l⟩ := X; simp [Sel.addCols]
   rwa [hX] at this
 
@@ -134,13 +192,7 @@ theorem or_is_union (o : Oracles) (ao : AggOracles) (db : Db) (pfx : String) (L 
 /-- the tree `planComplex` builds means the script with `&&` binding tighter than `||`, and every selector
     of the script is planned -/
 theorem tree_means_script (f : Selector → Bool) (script : Script) (gs : List (List Script)) (h : groupsS script = .ok gs) :
-    treeHolds f (orFold 0 none gs) = scriptHolds f script := by
-  obtain ⟨e1, h2, h3, _⟩ := groupsS_spec f script gs h
-  rw [(orFold_spec f gs 0 none h3 h2).1]
-  simp only [Bool.false_or, scriptHolds]
-  have e2 := congrArg (fun ll : List (List Bool) => ll.any (fun bs => bs.all id)) e1
-  simp only [List.any_map, List.all_map, Function.comp_def, id] at e2
-  exact e2
+    treeHolds f (orFold 0 none gs) = scriptHolds f script := tree_means_script' f script gs h
 
 /-! ## the whole script -/
 
@@ -150,50 +202,59 @@ theorem tree_means_script (f : Selector → Bool) (script : Script) (gs : List (
     — some selector group joined by `&&` has all its selectors matching the trace, where a selector matches
     iff some span inside the time window satisfies the boolean combination of its conditions and the matched
     spans pass its aggregate comparison. -/
-theorem plan_correct (o : Oracles) (ao : AggOracles) (hp : PermInv ao) (c : Ctx) (d : TraceDb) (hr : c.rndMax = 0)
-    (hcons : DurConsistent d) (script : Script) (X : Sel) (h : rootSel c script = .ok X)
+theorem plan_correct (o : Oracles) (ao : AggOracles) (hp : PermInv ao) (c : Ctx) (d : TraceDb)
+    (hcons : DurConsistent (d.seen o c)) (script : Script) (X : Sel) (h : rootSel c script = .ok X)
     (hok : ∀ p ∈ script, SelOk p.1) (env : Env) :
     ((evalSelG o ao (d.toDb c) true env X).map (fun r => r.get "trace_id")).Nodup ∧
     ∀ tr, (∃ r ∈ evalSelG o ao (d.toDb c) true env X, r.get "trace_id" = .str tr) ↔
-      traceMatches o ao c d script tr = true := by
-  have hT := (root_traceSel o ao hp c d hr hcons script X h hok).rows [] env
+      traceMatches o ao c (d.seen o c) script tr = true := by
+  have hT := (root_traceSel o ao hp c d hcons script X h hok).rows [] env
   have hX : X.addCols [] = X := by obtain ⟨ws, d', c', f, j, p, w, g, h', ob, l⟩ := X; simp [Sel.addCols]
   rw [hX] at hT
   exact ⟨hT.nodup, hT.mem⟩
 
 /-! ## window and limit -/
 
-/-- the full statement about LIMIT: the kept traces are the most recent ones — any matching trace that was cut
-    is not newer (by its newest matched span) than a kept one. Compiled, **not proved**: the order `ORDER BY
-    max(timestamp_ns) DESC` induces among the groups is outside the proved fragment (see notes). -/
-def limit_most_recent_full : Prop :=
-  ∀ (o : Oracles) (ao : AggOracles) (c : Ctx) (d : TraceDb) (script : Script) (X : Sel) (recency : Bytes → Int),
-    rootSel c script = .ok X →
-    (∀ tr, recency tr = (((spans c d).filter (fun k => k.1 == tr)).foldl
-        (fun m k => max m (((d.attrs.find? (fun a => a.span == k && admissible c a)).map (·.ts)).getD 0)) 0)) →
-    ∀ kept cut : Bytes,
-      (∃ r ∈ evalSelG o ao (d.toDb c) true [] (indexLimit c X), r.get "trace_id" = .str kept) →
-      traceMatches o ao c d script cut = true →
-      (¬ ∃ r ∈ evalSelG o ao (d.toDb c) true [] (indexLimit c X), r.get "trace_id" = .str cut) →
-      recency cut ≤ recency kept
+/-- **limit_most_recent**: `index_grouped` — the root select with `IndexLimitPlanner`'s LIMIT — is a choice of the `limit` most
+    recent traces the script describes: no trace twice, only described ones, at most `limit`; a described trace that was left
+    out means `limit` were kept and none of them is older; newest first. Recency (`traceRec`) is the start time of the newest
+    span of the trace selected by a selector of a matching `&&`-group. Which of equally recent traces are kept is not
+    determined (`IsTopN` is a relation; `topN_unique` when recency tells the described traces apart). Every span array is an
+    admissible choice of the spans the script selects of the trace (`SpanSetOk`: at most 100, none twice, all of them when
+    there are at most 100 per selector and overall). Holds for every context, also with a portion filter (`d.seen`). -/
+theorem limit_most_recent (o : Oracles) (ao : AggOracles) (hp : PermInv ao) (c : Ctx) (d : TraceDb)
+    (hcons : DurConsistent (d.seen o c)) (hts : TsConsistent (d.seen o c)) (script : Script) (X : Sel)
+    (h : rootSel c script = .ok X) (hok : ∀ p ∈ script, SelOk p.1) (env : Env) (hlim : 0 < c.limit) :
+    IsTopN (traceRec o ao c (d.seen o c) script) (fun tr => traceMatches o ao c (d.seen o c) script tr = true) c.limit.toNat
+      (idsOf (evalSelG o ao (d.toDb c) true env (indexLimit c X))) ∧
+    (∀ r ∈ evalSelG o ao (d.toDb c) true env (indexLimit c X), ∃ tr vs, r.get "trace_id" = .str tr ∧ r.get "span_id" = .strs vs ∧
+      SpanSetOk (traceSpans o ao c (d.seen o c) script tr)
+        (scriptL (fun s tr => selMatches o ao c (d.seen o c) s tr) (fun s tr => [selSpans o c (d.seen o c) s tr]) script tr) vs) :=
+  let ⟨h1, h2, _⟩ := index_grouped_topN o ao hp c d hcons hts script X h hok env hlim
+  ⟨h1, h2⟩
 
-/-- **window_and_limit_partial.** (1) Index rows outside [start, end) or stored under a day outside the
+/-- two choices of the `n` most recent have the same members when recency tells the described traces apart -/
+theorem limit_choice_unique (rec : Bytes → Int) (P : Bytes → Prop) (n : Nat) (K1 K2 : List Bytes)
+    (h1 : IsTopN rec P n K1) (h2 : IsTopN rec P n K2) (hinj : ∀ a b, P a → P b → rec a = rec b → a = b) :
+    ∀ t, t ∈ K1 ↔ t ∈ K2 := topN_unique rec P n K1 K2 h1 h2 hinj
+
+/-- **window_and_limit.** (1) Index rows outside [start, end) or stored under a day outside the
     window never change which traces a script describes. (2) The LIMIT of `IndexLimitPlanner` keeps a prefix of
     the unlimited result: no trace twice, at most `limit` traces, every kept trace is described by the script,
     and when fewer than `limit` are returned every described trace is returned. -/
-theorem window_and_limit_partial (o : Oracles) (ao : AggOracles) (hp : PermInv ao) (c : Ctx) (d : TraceDb)
-    (hr : c.rndMax = 0) (hcons : DurConsistent d) (script : Script) (X : Sel) (h : rootSel c script = .ok X)
+theorem window_and_limit (o : Oracles) (ao : AggOracles) (hp : PermInv ao) (c : Ctx) (d : TraceDb)
+    (hcons : DurConsistent (d.seen o c)) (script : Script) (X : Sel) (h : rootSel c script = .ok X)
     (hok : ∀ p ∈ script, SelOk p.1) (env : Env) (hlim : 0 < c.limit) :
     (∀ tr, traceMatches o ao c (d.inWindow c) script tr = traceMatches o ao c d script tr) ∧
     evalSelG o ao (d.toDb c) true env (indexLimit c X) = (evalSelG o ao (d.toDb c) true env X).take c.limit.toNat ∧
     ((evalSelG o ao (d.toDb c) true env (indexLimit c X)).map (fun r => r.get "trace_id")).Nodup ∧
     (evalSelG o ao (d.toDb c) true env (indexLimit c X)).length ≤ c.limit.toNat ∧
     (∀ r ∈ evalSelG o ao (d.toDb c) true env (indexLimit c X),
-        ∃ tr, r.get "trace_id" = .str tr ∧ traceMatches o ao c d script tr = true) ∧
+        ∃ tr, r.get "trace_id" = .str tr ∧ traceMatches o ao c (d.seen o c) script tr = true) ∧
     ((evalSelG o ao (d.toDb c) true env (indexLimit c X)).length < c.limit.toNat →
-        ∀ tr, traceMatches o ao c d script tr = true →
+        ∀ tr, traceMatches o ao c (d.seen o c) script tr = true →
           ∃ r ∈ evalSelG o ao (d.toDb c) true env (indexLimit c X), r.get "trace_id" = .str tr) := by
-  have hT := (root_traceSel o ao hp c d hr hcons script X h hok).rows [] env
+  have hT := (root_traceSel o ao hp c d hcons script X h hok).rows [] env
   have hX : X.addCols [] = X := by obtain ⟨ws, d', c', f, j, p, w, g, h', ob, l⟩ := X; simp [Sel.addCols]
   rw [hX] at hT
   have hl : evalSelG o ao (d.toDb c) true env (indexLimit c X) = (evalSelG o ao (d.toDb c) true env X).take c.limit.toNat := by
@@ -203,6 +264,121 @@ theorem window_and_limit_partial (o : Oracles) (ao : AggOracles) (hp : PermInv a
   obtain ⟨t1, t2, t3, t4⟩ := hT.take c.limit.toNat
   rw [hl]
   exact ⟨traceMatches_window o ao c d script, rfl, t1, t2, t3, t4⟩
+
+/-! ## the whole statement -/
+
+/-- **plan_traceql_correct.** For EVERY script whose selectors have conditions that the planner accepts, every window, every
+    positive limit, every context (also with a portion filter: `d.seen`) and every database (attribute index + span table,
+    the index rows of a span agreeing on its start time and duration): the rows of the WHOLE generated statement — index
+    search, HAVING over the bit set, grouping per trace, `&&`/`||` nodes, `ORDER BY max(timestamp_ns) DESC LIMIT`, the sub-queries
+    `trace_ids` / `trace_span_ids` / `traces_info`, the ANY LEFT JOIN with the span table, `GROUP BY`, `ORDER BY start_time_unix_nano
+    DESC LIMIT`, evaluated by `Sql.evalStmtJ` — are, on the columns trace_id, span_id, duration, timestamp_ns,
+    start_time_unix_nano, exactly `assemble K spans limit` for a `K` that is a choice of the `limit` most recent traces the
+    script describes (`IsTopN`: recency = start of the newest selected span; equally recent traces are interchangeable), each
+    with an admissible array of the spans the script selects of it (`SpanSetOk`). `assemble`: every span-table row of a selected
+    (trace, span), grouped per trace in table order, with the start of the whole trace, newest trace start first. -/
+theorem plan_traceql_correct (o : Oracles) (ao : AggOracles) (hp : PermInv ao) (c : Ctx) (d : TraceDb)
+    (hcons : DurConsistent (d.seen o c)) (hts : TsConsistent (d.seen o c)) (script : Script) (S : Sel)
+    (h : plan c script = .ok S) (hok : ∀ p ∈ script, SelOk p.1) (hlim : 0 < c.limit) (htab : TablesDistinct c) :
+    ∃ K : List (Bytes × List Bytes),
+      IsTopN (traceRec o ao c (d.seen o c) script) (fun tr => traceMatches o ao c (d.seen o c) script tr = true) c.limit.toNat (K.map (·.1)) ∧
+      (∀ k ∈ K, SpanSetOk (traceSpans o ao c (d.seen o c) script k.1)
+        (scriptL (fun s tr => selMatches o ao c (d.seen o c) s tr) (fun s tr => [selSpans o c (d.seen o c) s tr]) script k.1) k.2) ∧
+      (evalStmtJ o ao (d.toDb c) S).map (fun r => r.take 5) = (assemble K d.spansT (some c.limit.toNat)).map TraceOut.row :=
+  plan_rows o ao hp c d hcons hts script S h hok hlim htab
+
+/-- the statement for `{}` — every trace with a span inside the window, read from the span table (`AttrlessConditionPlanner`,
+    after fix 373aa96): the same specification with "described" = has a span-table row inside the window, recency = the newest
+    such row, selected spans = some 100 of its rows inside the window. The order of `index_grouped` is not claimed here (it is by
+    the newest of the ≤ 100 kept spans; the statement re-orders by trace start anyway). Compiled, **not proved** (its sub-queries
+    scan the span table, not the index; the `whole` stream judges every real `{}` statement against it). -/
+def plan_all_traces_full : Prop :=
+  ∀ (o : Oracles) (ao : AggOracles) (c : Ctx) (d : TraceDb) (op : ScriptOp) (S : Sel),
+    plan c [(⟨none, none⟩, op)] = .ok S → 0 < c.limit → TablesDistinct c →
+    ∃ K : List (Bytes × List Bytes),
+      (K.map (·.1)).Nodup ∧ K.length ≤ c.limit.toNat ∧
+      (∀ k ∈ K, (∃ s ∈ d.spansT, s.traceId = k.1 ∧ spanInWindow c s = true) ∧ k.2 ≠ [] ∧ k.2.length ≤ 100 ∧ ∀ v ∈ k.2, v ∈ allTraceSpans c d k.1) ∧
+      (∀ m, (∃ s ∈ d.spansT, s.traceId = m ∧ spanInWindow c s = true) → m ∉ K.map (·.1) →
+        K.length = c.limit.toNat ∧ ∀ k ∈ K, allTraceRec c d m ≤ allTraceRec c d k.1) ∧
+      (evalStmtJ o ao (d.toDb c) S).map (fun r => r.take 5) = (assemble K d.spansT (some c.limit.toNat)).map TraceOut.row
+
+/-- **all_traces_choice** (`{}`, the part that decides which traces come back): the first sub-query of
+    `AttrlessConditionPlanner.Process` — `trace_ids`, to which every later sub-query and the final join are restricted — returns a
+    choice of the `limit` traces with the newest span-table row inside `[start, end)`: no trace twice, only traces with a span
+    inside the window, a trace left out means `limit` were picked and none of them is older, newest first (after fix 373aa96; before
+    it a trace was ranked by an arbitrary one of its spans and a span starting at `end` could take a place). -/
+theorem all_traces_choice (o : Oracles) (ao : AggOracles) (c : Ctx) (d : TraceDb) (env : Env) (htab : TablesDistinct c) :
+    (attrless c).withs.head? = some (.named "trace_ids", traceIdsAll c) ∧
+    ∃ A : List Bytes, evalSelG o ao (d.toDb c) false env (traceIdsAll c) = A.map (fun t => [("trace_id", Val.str t)]) ∧
+      IsTopN (allTraceRec c d) (InWindowTrace c d) c.limit.toNat A :=
+  ⟨attrless_trace_ids c, TraceQL.all_traces_choice o ao c d env (toDb_traces d c htab).2⟩
+
+/-! ## portions -/
+
+/-- **portion_filter_correct.** What a portion statement sees behind `cityHash64(trace_id) % N == i OR trace_id IN (unhex('id'), …)`:
+    the index restricted to the traces of portion `i` of `N` and the cached ones — for every hash function, every injective
+    rendering of ids, the two raw-text expressions read as computed columns of the index (`withPortionCols`). -/
+theorem portion_filter_correct (o : Oracles) (c : Ctx) (d : TraceDb) (hash : Bytes → Nat) (idText : Bytes → String)
+    (hinj : ∀ a b, idText a = idText b → a = b) (n i : Nat) (hn : 0 < n) (cachedIds : List Bytes)
+    (hsub : ∀ t ∈ cachedIds, d.traceIds.contains t = true) :
+    (d.withPortionCols hash idText n).seen o (portionCtx c n i (cachedIds.map idText)) =
+      (d.withPortionCols hash idText n).portion hash n i cachedIds :=
+  seen_portion o c d hash idText hinj n i hn cachedIds hsub
+
+/-- what a script says of a trace — described or not, recency, selected spans — depends on the index rows of that trace only:
+    every trace is judged the same in the one portion it falls into as in the whole index -/
+theorem portion_locality (o : Oracles) (ao : AggOracles) (c : Ctx) (d : TraceDb) (φ : Bytes → Bool) (script : Script) (tr : Bytes)
+    (htr : φ tr = true) :
+    traceMatches o ao c (d.restrict φ) script tr = traceMatches o ao c d script tr ∧
+    traceRec o ao c (d.restrict φ) script tr = traceRec o ao c d script tr ∧
+    traceSpans o ao c (d.restrict φ) script tr = traceSpans o ao c d script tr :=
+  ⟨traceMatches_restrict o ao c d φ script tr htr, traceRec_restrict o ao c d φ script tr htr, traceSpans_restrict o ao c d φ script tr htr⟩
+
+/-- **portions_partition.** The loop of `ComplexRequestProcessor` (after fix 9b2912c) over `N ≥ 1` portions — statement `i` with the
+    portion filter `cityHash64(trace_id) % N == i OR trace_id IN (ids returned so far)`, the result of an iteration replacing the
+    result so far — returns `assemble` of a choice of the `limit` most recent traces the script describes in the WHOLE index, each
+    with an admissible array of its selected spans: the same specification the un-portioned statement meets
+    (`plan_traceql_correct`), hence the same traces whenever recency tells the described traces apart (`limit_choice_unique`).
+    For every hash function, every `N ≥ 1`, every injective id rendering, every database in which every index span has its
+    span-table row (`SpansCover`). -/
+theorem portions_partition (o : Oracles) (ao : AggOracles) (hp : PermInv ao) (c : Ctx) (d : TraceDb) (hash : Bytes → Nat)
+    (idText : Bytes → String) (hinj : ∀ a b, idText a = idText b → a = b) (N : Nat) (hN : 0 < N)
+    (hcons : DurConsistent (d.withPortionCols hash idText N)) (hts : TsConsistent (d.withPortionCols hash idText N))
+    (hcover : SpansCover (d.withPortionCols hash idText N))
+    (script : Script) (hok : ∀ p ∈ script, SelOk p.1) (hlim : 0 < c.limit) (htab : TablesDistinct c) (out : List TraceOut)
+    (h : portionLoop (stmtRows o ao (d.withPortionCols hash idText N) script) idText c N N [] [] = .ok out) :
+    ∃ K : List (Bytes × List Bytes),
+      IsTopN (traceRec o ao c (d.withPortionCols hash idText N) script)
+        (fun t => traceMatches o ao c (d.withPortionCols hash idText N) script t = true) c.limit.toNat (K.map (·.1)) ∧
+      (∀ x ∈ K, SpanSetOk (traceSpans o ao c (d.withPortionCols hash idText N) script x.1)
+        (scriptL (fun s tr => selMatches o ao c (d.withPortionCols hash idText N) s tr)
+          (fun s tr => [selSpans o c (d.withPortionCols hash idText N) s tr]) script x.1) x.2) ∧
+      out = assemble K (d.withPortionCols hash idText N).spansT (some c.limit.toNat) :=
+  TraceQL.portions_partition o ao hp c d hash idText hinj N hN hcons hts hcover script hok hlim htab out h
+
+/-- one step of the merge, abstractly: a choice of the `n` most recent among the new candidates and the ones kept so far is a
+    choice of the `n` most recent among all seen so far -/
+theorem portions_merge_step (rec : Bytes → Int) (P Q : Bytes → Prop) (n : Nat) (K K' : List Bytes)
+    (hK : IsTopN rec P n K) (hK' : IsTopN rec (fun t => Q t ∨ t ∈ K) n K') : IsTopN rec (fun t => P t ∨ Q t) n K' :=
+  topN_merge rec P Q n K K' hK hK'
+
+/-! ## tag names and tag values -/
+
+/-- **plan_tags_correct.** For a selector with conditions: the rows of the statement `PlanTagsV2` builds (after fix 9468fce) are
+    the distinct attribute keys of the index rows inside the window whose span id is the id of a span the conditions select —
+    ascending and cut at `limit` when the limit is positive. -/
+theorem plan_tags_correct (o : Oracles) (ao : AggOracles) (c : Ctx) (d : TraceDb) (hr : c.rndMax = 0) (kv : String) (s : Selector)
+    (op : ScriptOp) (e : AttrExp) (he : s.attrs = some e) (hinj : KeyInj (termsOf e)) (S : Sel)
+    (h : planTags c kv [(s, op)] = .ok S) :
+    colStrs (evalStmtJ o ao (d.toDb c) S) "key" = tagsResult c (tagKeys o c d e) :=
+  planTags_correct o ao c d hr kv s op e he hinj S h
+
+/-- **plan_values_correct.** … and `PlanValuesV2`: the distinct values of the requested key over the same rows. -/
+theorem plan_values_correct (o : Oracles) (ao : AggOracles) (c : Ctx) (d : TraceDb) (hr : c.rndMax = 0) (kv : String) (key : Bytes)
+    (s : Selector) (op : ScriptOp) (e : AttrExp) (he : s.attrs = some e) (hinj : KeyInj (termsOf e)) (S : Sel)
+    (h : planValues c kv key [(s, op)] = .ok S) :
+    colStrs (evalStmtJ o ao (d.toDb c) S) "val" = tagsResult c (tagValues o c d e key) :=
+  planValues_correct o ao c d hr kv key s op e he hinj S h
 
 /-! ## well-formed statements -/
 
@@ -235,7 +411,11 @@ def sel0 : Selector := ⟨some (.leafOp termA .or (.leaf termD)), some ⟨.count
 def script0 : Script := [(sel0, .and), (⟨some (.leaf termD), none⟩, .none)]
 
 example : PermInv ⟨fun _ _ _ _ => true⟩ := fun _ _ _ _ _ _ => rfl
-example : DurConsistent ⟨[]⟩ := fun a ha => by simp at ha
+example : TsConsistent { attrs := [] } := fun a ha => by simp at ha
+example : SpansCover { attrs := [] } := fun a ha => by simp at ha
+example : TablesDistinct ctx0 := ⟨by decide, by decide, by decide, by decide⟩
+example : 0 < ctx0.limit := by decide
+example : DurConsistent { attrs := [] } := fun a ha => by simp at ha
 example : ctx0.rndMax = 0 := rfl
 example : (match rootSel ctx0 script0 with | .ok _ => true | .error _ => false) = true := by decide +kernel
 example : (match plan ctx0 script0 with | .ok _ => true | .error _ => false) = true := by decide +kernel
@@ -245,7 +425,7 @@ example : ∀ p ∈ script0, SelOk p.1 := by
   intro p hp
   simp only [script0, List.mem_cons, List.mem_singleton, List.not_mem_nil, or_false] at hp
   rcases hp with rfl | rfl
-  · refine ⟨⟨_, rfl, ?_, by decide +kernel⟩⟩
+  · refine ⟨⟨_, rfl, ?_⟩⟩
     intro t ht t' ht' hkk
     simp only [termsOf, List.mem_cons, List.mem_singleton, List.not_mem_nil, or_false] at ht ht'
     rcases ht with rfl | rfl <;> rcases ht' with rfl | rfl
@@ -253,7 +433,7 @@ example : ∀ p ∈ script0, SelOk p.1 := by
     · exact absurd hkk hk
     · exact absurd hkk.symm hk
     · rfl
-  · refine ⟨⟨_, rfl, ?_, by decide +kernel⟩⟩
+  · refine ⟨⟨_, rfl, ?_⟩⟩
     intro t ht t' ht' _
     simp only [termsOf, List.mem_singleton] at ht ht'
     rw [ht, ht']
